@@ -143,3 +143,11 @@ Theorem C20_stringer_hash : forall s len key,
   stringer_hash s len key = LOk (base58_spec_encode (blake2b_rfc len key s)).
 Proof. exact stringer_hash_ok. Qed.
 Print Assumptions C20_stringer_hash.
+
+(* every digest length the compiler actually passes (default 20 and the literal lengths at the call
+   sites of stringer.hash, regenerated from lualib/nelua on every run) is within the theorem's domain *)
+Theorem C20_stringer_hash_callsites : forall len s,
+  In len (STRINGER_DEFAULT_LEN :: STRINGER_CALLSITE_LENS) -> Forall is_byte s ->
+  stringer_hash s len [] = LOk (base58_spec_encode (blake2b_rfc len [] s)).
+Proof. exact stringer_hash_callsites. Qed.
+Print Assumptions C20_stringer_hash_callsites.
